@@ -27,7 +27,7 @@ T_Start ==
   /\ inbox' = HonestAnswer(Rec[l].shape, Rec[l].denial, Rec[l].qk)
   /\ msg' = <<>> /\ gi' = 1 /\ gst' = <<>> /\ walk' = <<>>
   /\ node' = [z \in AllZones |-> "none"] /\ tkeys' = [z \in AllZones |-> {}]
-  /\ dsd' = <<>> /\ ttl0' = {} /\ probes' = 0
+  /\ dsd' = <<>> /\ ttl0' = {} /\ probes' = 0 /\ entp' = FALSE
   /\ served' = <<>> /\ fetches' = <<>> /\ result' = "none" /\ steps' = 0
   /\ Adv(1)
 
@@ -41,7 +41,7 @@ T_Deliver == /\ l > 1 /\ Deliver
              /\ \A i \in PlanFor(pend.t, pend.z) : i <= Len(advlog)
              /\ UNCHANGED <<l, plan>>
 \* internal validator steps
-T_Internal == /\ l > 1 /\ (StartGroup \/ FetchNext \/ VerifyKey \/ VerifyDs \/ Probe
+T_Internal == /\ l > 1 /\ (StartGroup \/ EntProbe \/ FetchNext \/ VerifyKey \/ VerifyDs \/ Probe
                            \/ CheckGroup \/ Judge)
               /\ IF fetches' = fetches THEN UNCHANGED l
                  ELSE /\ IsEv("fetch")
